@@ -158,6 +158,103 @@ def int_model(val=0, base=_MISSING):
 _core._PATCH_REGISTRATIONS[int] = int_model
 
 
+# --------------------------------------------------------------------------
+# 3. repr(text) on a symbolic str without realising it.  Exact for code points
+#    below 128 (quote choice, backslash, \n \r \t, \xNN); code points >= 128
+#    are copied verbatim (CPython escapes the non-printable ones) - queries that
+#    look at the rendered text restrict themselves to ASCII.
+# 4. "fmt" % args with only %s / %r / %d / %% conversions: built by
+#    concatenation; %r of a symbolic str is quote+text+quote WITHOUT escaping
+#    (cheap: no per-character forks).  ombott uses %-formatting with %r only
+#    for exception messages and __repr__/__doc__ texts, which no check inspects.
+# --------------------------------------------------------------------------
+_HEXD = "0123456789abcdef"
+
+
+def _repr_codes(s):
+    has_sq = "'" in s
+    has_dq = '"' in s
+    q = '"' if (has_sq and not has_dq) else "'"
+    out = [q]
+    for ch in s:
+        c = ord(ch)
+        if c >= 128:
+            out.append(ch)
+        elif c == 92:
+            out.append("\\\\")
+        elif ch == q:
+            out.append("\\" + q)
+        elif c == 10:
+            out.append("\\n")
+        elif c == 13:
+            out.append("\\r")
+        elif c == 9:
+            out.append("\\t")
+        elif c < 32 or c == 127:
+            out.append("\\x" + _HEXD[c // 16] + _HEXD[c % 16])
+        else:
+            out.append(ch)
+    out.append(q)
+    return "".join(out)
+
+
+def repr_model(obj):
+    with NoTracing():
+        sym = isinstance(obj, _bl.AnySymbolicStr)
+    if sym:
+        return _repr_codes(obj)
+    return _bl.invoke_dunder(obj, "__repr__")
+
+
+_core._PATCH_REGISTRATIONS[repr] = repr_model
+_SIMPLE_FMT = re.compile(r"%([srd%])")
+
+
+def mod_model(self, other):
+    if not isinstance(self, str):
+        raise TypeError
+    with NoTracing():
+        fmt = realize(self)
+        simple = "%" not in _SIMPLE_FMT.sub("", fmt)
+        args = other if isinstance(other, tuple) else (other,)
+        convs = _SIMPLE_FMT.findall(fmt)
+        nargs = len([c for c in convs if c != "%"])
+        anysym = any(isinstance(a, CrossHairValue) for a in args)
+        usable = simple and anysym and nargs == len(args) and not isinstance(other, dict)
+    if not usable:
+        return fmt.__mod__(deep_realize(other))
+    pieces = _SIMPLE_FMT.split(fmt)      # text, conv, text, conv, ...
+    out = []
+    k = 0
+    for i, piece in enumerate(pieces):
+        if i % 2 == 0:
+            out.append(piece)
+            continue
+        if piece == "%":
+            out.append("%")
+            continue
+        a = args[k]
+        k += 1
+        with NoTracing():
+            symstr = isinstance(a, _bl.AnySymbolicStr)
+            symval = isinstance(a, CrossHairValue)
+        if piece == "r" and symstr:
+            out.append("'" + a + "'")
+        elif piece == "r":
+            out.append(repr(a))
+        elif piece == "d":
+            if symval:
+                out.append(str(a.__index__() if not isinstance(a, _bl.SymbolicInt) else a))
+            else:
+                out.append("%d" % a)
+        else:
+            out.append(a if symstr else str(a))
+    return "".join(out)
+
+
+_core._PATCH_REGISTRATIONS[str.__mod__] = mod_model
+
+
 def _ref_int(x, base):
     try:
         return int(x, base)
@@ -197,6 +294,17 @@ def selfcheck():
         for base in (10, 16):
             assert _ref_int(s, base) == _model_int(s, base), (s, base)
             assert _ref_int(s.encode(), base) == _model_int(s.encode(), base), (s, base)
+    # repr model: all ASCII strings of length <= 2 and a sample of length 3
+    asc = [chr(i) for i in range(128)]
+    for L in (0, 1, 2):
+        for t in itertools.product(asc, repeat=L):
+            x = "".join(t)
+            n += 1
+            assert _repr_codes(x) == repr(x), x
+    for t in itertools.product("a'\"\\\n\x00\x7f ", repeat=3):
+        x = "".join(t)
+        assert _repr_codes(x) == repr(x), x
+    assert mod_model("a %s b %r c %d %%", ("x", "y", 5)) == "a %s b %r c %d %%" % ("x", "y", 5)
     # Match model: unmatched group
     m = re.compile(br"(\r\n\r\n)|(\r(\n\r?)?)$").search(b"ab\r")
     assert m.start(1) == -1
